@@ -149,24 +149,42 @@ Record rgroup := mk_rg { rg_rows : N; rg_chunks : list (option (option N)) }.
         if st.null_count is None or st.null_count: num_nulls = True; break
    absent_counts = true is the repaired tree (fix: commit): statistics WITHOUT a null_count cannot exclude nulls;
    the pinned tree (`if st.null_count:`) took an absent null_count for zero (absent_counts = false).           *)
-Fixpoint null_evidence_gen (absent_counts : bool) (i : nat) (rgs : list rgroup) : option bool :=
+(* `loc` = the chunk the code looks at (field_chunk below); None = the field has no chunk of its own name: unknown *)
+Fixpoint null_evidence_gen (absent_counts : bool) (loc : option nat) (rgs : list rgroup) : option bool :=
   match rgs with
   | [] => Some false
   | rg :: r =>
-    if N.eqb (rg_rows rg) 0 then null_evidence_gen absent_counts i r
-    else match nth_error (rg_chunks rg) i with
-         | None => None
-         | Some None => Some true
-         | Some (Some None) => if absent_counts then Some true else null_evidence_gen absent_counts i r
-         | Some (Some (Some n)) => if N.eqb n 0 then null_evidence_gen absent_counts i r else Some true
+    if N.eqb (rg_rows rg) 0 then null_evidence_gen absent_counts loc r
+    else match loc with
+         | None => Some true
+         | Some i =>
+           match nth_error (rg_chunks rg) i with
+           | None => None
+           | Some None => Some true
+           | Some (Some None) => if absent_counts then Some true else null_evidence_gen absent_counts loc r
+           | Some (Some (Some n)) => if N.eqb n 0 then null_evidence_gen absent_counts loc r else Some true
+           end
          end
   end.
 Definition null_evidence := null_evidence_gen true.
 
-(* the two repairs made by fix: commits, as switches (both false = the pinned tree) *)
-Record rules := mk_rules { r_int96_tz : bool; r_absent_counts : bool; r_cat_md : bool }.
-Definition repaired : rules := mk_rules true true true.
-Definition pinned_rules : rules := mk_rules false false false.
+(* WHICH chunk holds the statistics of the field `name` that sits at position i among the top-level fields.
+   paths = '.'.join(path_in_schema) of the chunks of the first row group, in file order.
+   by_name = true is the repaired tree (fix: commit): the chunk with the field's own path; the pinned tree took the
+   chunk at the field's POSITION, which is another column's chunk as soon as a group field (MAP, struct) with several
+   leaves precedes it (by_name = false). *)
+Fixpoint index_of (x : bytes) (l : list bytes) : option nat :=
+  match l with
+  | [] => None
+  | y :: r => if bytes_eqb x y then Some O else option_map S (index_of x r)
+  end.
+Definition field_chunk (by_name : bool) (paths : list bytes) (name : bytes) (i : nat) : option nat :=
+  if by_name then index_of name paths else Some i.
+
+(* the repairs made by fix: commits, as switches (all false = the pinned tree) *)
+Record rules := mk_rules { r_int96_tz : bool; r_absent_counts : bool; r_cat_md : bool; r_by_name : bool }.
+Definition repaired : rules := mk_rules true true true true.
+Definition pinned_rules : rules := mk_rules false false false false.
 
 (* ------------------------------------------------------------------------------------------ *)
 (* ParquetFile._dtypes: one top-level field                                                    *)
@@ -218,14 +236,14 @@ Definition adjust (T : tables) (int96_tz has_md pandas_nulls : bool) (d : dt)
 Definition md_tzflag (md : option mdent) : bool := match md with Some m => md_tz m | None => false end.
 
 Definition base_dtype_gen (R : rules) (T : tables) (has_md pandas_nulls : bool) (se : selem) (md : option mdent)
-           (i : nat) (rgs : list rgroup) : res :=
+           (loc : option nat) (rgs : list rgroup) : res :=
   if se_group se then ROk DObj else
   match typemap T se md with
   | RErr => RErr
   | ROk d => adjust T (r_int96_tz R) has_md pandas_nulls d
                     (option_map (fun m => lookup_name (t_npnames T) (md_numpy m)) md)
                     (md_tzflag md) (md_claims_gen (r_cat_md R) md) (md_cat_skip (r_cat_md R) md)
-                    (null_evidence_gen (r_absent_counts R) i rgs)
+                    (null_evidence_gen (r_absent_counts R) loc rgs)
   end.
 
 Definition base_dtype := base_dtype_gen repaired.
@@ -246,8 +264,8 @@ Definition check_categories (has_md : bool) (categ : list bytes) (nrg : N) (arg 
        end.
 
 Definition predict (T : tables) (has_md pandas_nulls : bool) (se : selem) (md : option mdent)
-           (i : nat) (rgs : list rgroup) (as_category : bool) : res :=
-  match base_dtype T has_md pandas_nulls se md i rgs with
+           (loc : option nat) (rgs : list rgroup) (as_category : bool) : res :=
+  match base_dtype T has_md pandas_nulls se md loc rgs with
   | RErr => RErr                           (* _base_dtype is computed for every field first *)
   | ROk d => if as_category then ROk DCat else ROk d
   end.
